@@ -114,7 +114,12 @@ Definition step (s : gstate) (o : op) : gstate * res :=
       with_result s (if h_silhouette c then rng_unknown else g_rng s) (Hourly :: g_warm s)
         (RFit Hourly d (h_id c) (thread_class Hourly (g_threads s)) (hourly_consumers c (SdLit z)))
   | FitHourly d c None =>
-      with_result s (if h_silhouette c then rng_unknown else rng_push EvRandint (g_rng s)) (Hourly :: g_warm s)
+      (* the operation is construct + fit + to_json + predict.  As coded, the generator is consulted TWICE: once by
+         _check_seed when the settings are constructed (this draw is the seed of the fit), and once more by to_json(),
+         whose SerializeModel(settings=self.settings, ..) runs the settings' after-validator _check_seed again (the
+         model's _seed is replaced by a new draw after serialisation; nothing of the fitted model depends on it) *)
+      with_result s (if h_silhouette c then rng_unknown else rng_push EvRandint (rng_push EvRandint (g_rng s)))
+        (Hourly :: g_warm s)
         (RFit Hourly d (h_id c) (thread_class Hourly (g_threads s)) (hourly_consumers c (SdDraw (g_rng s))))
   | FitCalTrack d =>
       (* every CalTRACKHourlyModelResults of the fit path is built with an explicit warnings list:
